@@ -509,3 +509,49 @@ func HubLRGen() *rapid.Generator[*Grammar] {
 		return g
 	})
 }
+
+// MultiSCCGen draws a start rule that reaches two to four separate groups of mutually
+// left-recursive rules (each group a cycle of two or three rules), directly or through a
+// helper: whatever the analysis says about one group must not depend on the order in which
+// it comes across the groups.
+func MultiSCCGen() *rapid.Generator[*Grammar] {
+	return rapid.Custom(func(t *rapid.T) *Grammar {
+		n := 2 + U(t, 3, "ngroups")
+		pool := []string{"Decl", "Expr", "Atom", "Blk"}
+		if U(t, 2, "sccnames") == 0 {
+			pool = []string{"Z", "B", "Q", "A"}
+		}
+		g := &Grammar{Pkg: "p", Profile: "lrhunt"}
+		var starts []*Expr
+		var rules []*Rule
+		for i := 0; i < n; i++ {
+			a := pool[i]
+			size := 2 + U(t, 2, "sccsize")
+			names := []string{a}
+			for j := 1; j < size; j++ {
+				names = append(names, fmt.Sprintf("%s%d", a, j))
+			}
+			for j, nm := range names {
+				next := names[(j+1)%size]
+				rules = append(rules, &Rule{Name: nm, Expr: Choice(Seq(Ref(next), Lit(string(rune('a'+j)))), Lit(string(rune('p'+i))))})
+			}
+			starts = append(starts, Ref(a))
+		}
+		start := &Rule{Name: "Start", Expr: Choice(starts...)}
+		if U(t, 3, "viahelper") == 0 {
+			// the groups are reached through a helper rule
+			rules = append(rules, &Rule{Name: "Any", Expr: Choice(starts...)})
+			start = &Rule{Name: "Start", Expr: Seq(Opt(Lit(" ")), Ref("Any"))}
+		}
+		g.Rules = append([]*Rule{start}, rules...)
+		if U(t, 2, "sccrotate") == 0 {
+			r := 1 + U(t, len(g.Rules)-1, "sccrot")
+			g.Rules = append(append([]*Rule{}, g.Rules[r:]...), g.Rules[:r]...)
+		}
+		for _, r := range g.Rules {
+			g.Entries = append(g.Entries, r.Name)
+		}
+		g.Analyze()
+		return g
+	})
+}
